@@ -275,7 +275,39 @@ func check(c Case) error {
 	if c.Kind == "stream" {
 		return checkStream(c)
 	}
+	if c.Kind == "lines" {
+		return checkLines(c)
+	}
 	return checkRoundtrip(c)
+}
+
+// checkLines: the harness's own layout, read by Parse and by the streaming parser; nothing else (the
+// line-length sweep evaluates hundreds of long inputs).
+func checkLines(c Case) error {
+	want := records(c)
+	text := layout(want, c.Layout)
+	what := fmt.Sprintf("Parse(own layout %+v, longest line %d)", c.Layout, longestLine(c))
+	got, err := bounded(what, func() []fasta.Fasta { return fasta.Parse(bytes.NewReader(text)) })
+	if err != nil {
+		return err
+	}
+	if err := same(what, got, want); err != nil {
+		return err
+	}
+	what = "ParseConcurrent on the same text"
+	got, err = bounded(what, func() []fasta.Fasta {
+		ch := make(chan fasta.Fasta, 1)
+		go fasta.ParseConcurrent(bytes.NewReader(text), ch)
+		var out []fasta.Fasta
+		for f := range ch {
+			out = append(out, f)
+		}
+		return out
+	})
+	if err != nil {
+		return err
+	}
+	return same(what, got, want)
 }
 
 func longestLine(c Case) int {
@@ -450,6 +482,36 @@ func genStream(t *rapid.T) Case {
 
 var subRoundtrip = vk.Register(&vk.Sub[Case]{Name: "roundtrip", Gen: genRoundtrip, Check: check, NonTrivial: nonTrivial, Labels: labels, Sample: sample, PreRecord: true})
 var subStream = vk.Register(&vk.Sub[Case]{Name: "stream", Gen: genStream, Check: check, NonTrivial: nonTrivial, Labels: labels, Sample: sample, PreRecord: true})
+
+var subLines = vk.Register(&vk.Sub[Case]{Name: "lines", Check: check, NonTrivial: nonTrivial, Labels: labels, Sample: sample})
+
+// TestSub_lines puts a line of every edge length (vk.EdgeSizes of 1..300000: powers of two, multiples of
+// 1024 / 4096 / 65536 and of line widths, each +-1) into a file - as an unwrapped sequence, as the first
+// line of a wrapped sequence, and (to 70 000) as a header line - with LF and with CRLF line ends, followed
+// by a second record, and reads it with both parsers.
+func TestSub_lines(t *testing.T) {
+	base := vk.Fill(vk.Seed(), 300100, "ACGTNacgtn")
+	name := vk.Fill(vk.Seed()+1, 70000, "abcdefgh ij|_.0123456789")
+	vk.RunEnum(t, subLines, "a line of every edge length 1..300000 x {unwrapped sequence, first line of a wrapped sequence, header} x {LF, CRLF}", true, func(yield func(Case) bool) {
+		for _, L := range vk.EdgeSizes(1, 300000) {
+			for _, crlf := range []bool{false, true} {
+				tail := Rec{Name: "next record", Seq: vk.SeqSpec{Lit: "ACGT"}}
+				cases := []Case{
+					{Kind: "lines", Records: []Rec{{Name: "a", Seq: vk.SeqSpec{Lit: base[:L]}}, tail}, Layout: Layout{CRLF: crlf, FinalNewline: true}},
+					{Kind: "lines", Records: []Rec{{Name: "a", Seq: vk.SeqSpec{Lit: base[:L+17]}}, tail}, Layout: Layout{Wrap: L, CRLF: crlf, FinalNewline: L%2 == 0}},
+				}
+				if L >= 2 && L <= len(name) {
+					cases = append(cases, Case{Kind: "lines", Records: []Rec{{Name: name[:L-1], Seq: vk.SeqSpec{Lit: "ACGTACGT"}}, tail}, Layout: Layout{Wrap: 60, CRLF: crlf, FinalNewline: true}})
+				}
+				for _, c := range cases {
+					if !yield(c) {
+						return
+					}
+				}
+			}
+		}
+	})
+}
 
 func TestSub_roundtrip(t *testing.T) { vk.RunRapid(t, subRoundtrip) }
 func TestSub_stream(t *testing.T)    { vk.RunRapid(t, subStream) }
